@@ -82,8 +82,8 @@ class V(steps.Visitor):
         res = judge(root, s, cname, node, result, change, error, self.snap, self.everything)
         for kind, detail in res:
             core = f"{cname}|{kind}|{RW.neighbourhood(node)}"
-            acc.violation(core, {"text": ctx["text"], "trace": ctx["trace"], "cfg": cname, "index": index},
-                          f"{detail}  [state {SG.show(s)}]")
+            acc.violation(core, {"text": ctx["text"], "trace": ctx["trace"], "cfg": cname, "index": index,
+                                 "dup_ids": ctx.get("dup_ids", False)}, f"{detail}  [state {SG.show(s)}]")
         if any(k == "source-tree-modified" for k, _ in res):
             self.snap = audit.snapshot(self.everything)
         if RW.path_of(node):
@@ -100,6 +100,12 @@ def run(tier, seed):
     acc = steps.run(V, texts, depth, "any", seed, h1 + h2)
     if tier == "quick":
         acc.merge(steps.run(V, steps.small_texts("expr") + steps.small_texts("eqn"), 2, "any", seed, 0, key="small"))
+    # trees assembled from a piece and its clone: identical subtrees share node ids
+    dup = [f"{a} = {b} + {a}" for a in ("2x", "3x^2", "x + 1", "2 * y") for b in ("y", "3", "2x")]
+    dup += [f"{a} + {b} + {a}" for a in ("2x", "x^2", "4 * y", "2 + x") for b in ("y", "3")]
+    dup += [f"({a}) * ({a})" for a in ("x + 1", "2x", "x + y")] + [f"({a}) / ({a}) + ({a})" for a in ("2x", "x + 1")]
+    dup += [t for t in steps.small_texts("expr") if t.count("x") >= 2][::6]
+    acc.merge(steps.run(V, dup, "dupids", "any", seed, 0, key="dup"))
     cov = {
         "states": len(acc.keys),
         "transitions": acc.n["transitions"],
@@ -116,6 +122,8 @@ def run(tier, seed):
 
 
 def _replay_direct(case):
+    if case.get("dup_ids"):
+        return []  # reproduced by re-exploring the seed with unified ids
     roots = RW.run_trace(case["text"], case["trace"])
     cur = roots[-1]
     everything = audit.all_nodes(cur)
